@@ -6,10 +6,10 @@ import gens_slow
 from props.common import TRUSTED_BASE, ASSUMPTIONS
 
 ID = "C01"
-LEAN_MODULES = ["LexVerif.Props.C01", "LexVerif.Props.C01Slow", "LexVerif.Props.C01SlowMain", "LexVerif.Props.RoundNE", "LexVerif.Props.TablesParse", "LexVerif.Props.Literals.ParseFloatParse", "LexVerif.Props.Literals.ParseFloatNumber", "LexVerif.Props.Literals.ParseFloatLemire", "LexVerif.Props.Literals.ParseFloatBellerophon", "LexVerif.Props.Literals.ParseFloatSlow", "LexVerif.Props.Literals.ParseFloatBigint", "LexVerif.Props.Literals.ParseFloatShared", "LexVerif.Props.Literals.ParseFloatFloat", "LexVerif.Props.Literals.ParseFloatMask", "LexVerif.Props.Literals.ParseFloatLimits", "LexVerif.Props.Literals.ParseIntegerAlgorithm", "LexVerif.Props.Literals.UtilDigit", "LexVerif.Props.Literals.UtilStep", "LexVerif.Props.LiteralsModel", "LexVerif.Props.C01Main", "LexVerif.Props.C01Final"]
+LEAN_MODULES = ["LexVerif.Props.C01", "LexVerif.Props.C01Slow", "LexVerif.Props.C01SlowMain", "LexVerif.Props.RoundNE", "LexVerif.Props.TablesParse", "LexVerif.Props.Literals.ParseFloatParse", "LexVerif.Props.Literals.ParseFloatNumber", "LexVerif.Props.Literals.ParseFloatLemire", "LexVerif.Props.Literals.ParseFloatBellerophon", "LexVerif.Props.Literals.ParseFloatSlow", "LexVerif.Props.Literals.ParseFloatBigint", "LexVerif.Props.Literals.ParseFloatShared", "LexVerif.Props.Literals.ParseFloatFloat", "LexVerif.Props.Literals.ParseFloatMask", "LexVerif.Props.Literals.ParseFloatLimits", "LexVerif.Props.Literals.ParseIntegerAlgorithm", "LexVerif.Props.Literals.UtilDigit", "LexVerif.Props.Literals.UtilStep", "LexVerif.Props.LiteralsModel", "LexVerif.Props.C01Main", "LexVerif.Props.C01SlowDomain", "LexVerif.Props.C01Number", "LexVerif.Props.C01Trunc", "LexVerif.Props.C01Compact", "LexVerif.Props.C01Final"]
 GEN = ["parse_tables", "literals"]
 TRUSTED = TRUSTED_BASE + [
-    "Eisel-Lemire (Model/Lemire.lean, tied to the code by the cf/lm component streams) is PROVED in full on its model: lemire_sound_proved (Props/C01.lean) - for every i64 exponent and u64 mantissa compute_float never panics, a valid answer is roundNE(w*10^q) (exact rows 0..27; truncated rows 28..308 and -342..-28 by stability of the upper product bits, normal and subnormal results; rows -27..-1 rounded up: no borrow by divisibility, round-to-even test exact incl. a kernel-evaluated per-row check), and an invalid-marked answer brackets the value as negative_digit_comp needs (lemire_fallback_brackets, lemire_estimate_facts); the many_digits wrapper for every exponent (lemire_wrapper_all). Bellerophon (compact builds) is proved sound on its model (bellerophon_sound). The big-integer slow path is modelled and proved on an explicit domain (Props/C01Slow.lean); Props/C01Final.lean composes them: the named hypothesis left is NumberExact (syntax layer) plus the SlowDomain side conditions",
+    "Eisel-Lemire (Model/Lemire.lean, tied to the code by the cf/lm component streams) is PROVED in full on its model: lemire_sound_proved (Props/C01.lean) - for every i64 exponent and u64 mantissa compute_float never panics, a valid answer is roundNE(w*10^q) (exact rows 0..27; truncated rows 28..308 and -342..-28 by stability of the upper product bits, normal and subnormal results; rows -27..-1 rounded up: no borrow by divisibility, round-to-even test exact incl. a kernel-evaluated per-row check), and an invalid-marked answer brackets the value as negative_digit_comp needs (lemire_fallback_brackets, lemire_estimate_facts); the many_digits wrapper for every exponent (lemire_wrapper_all). Bellerophon (compact builds) is proved sound on its model (bellerophon_sound). The big-integer slow path is modelled and proved on an explicit domain (Props/C01Slow.lean); Props/C01Final.lean composes them: for every decimal input of every build no hypothesis is left (C01_decimal_full_proved; NumberExact, SlowDomain for Eisel-Lemire and for Bellerophon, truncation_invariant are proved)",
     "IEEE assumption of the fast path: u64->float conversion, float * and / are correctly rounded (Model/ExtFloat.lean: ofU64, fmul, fdiv)",
 ]
 RULE = ("G-ties: literals that are EXACTLY half-way between two adjacent floats for every q of the round-to-even window (plus just-above/just-below variants); G-hard: per decimal power q, mantissas m < 10^19 (and near 2^53, and short) for which m*10^q is closest to a midpoint "
@@ -19,7 +19,7 @@ RULE = ("G-ties: literals that are EXACTLY half-way between two adjacent floats 
 
 
 TECHNIQUE = 'Lean 4 proof (oracle roundNE nearest/ties-even; all power/limit tables kernel-checked against closed forms; fast path exact; Eisel-Lemire for every q >= 0 and the cut-offs; two-pass wrapper; API-level pipeline theorem C01_main with named hypotheses) + component- and API-level correspondence on number-theoretic worst cases'
-LEVEL_TEXT = 'Proved in Lean for all inputs: the specification oracle (roundNE is the nearest float, ties to even, monotone, exact on floats, correct overflow threshold) and, for every row, that the Eisel-Lemire / small-power / Bellerophon / big-integer tables and limits regenerated from the compiled crate equal their closed forms. Also proved on Lean models tied to the code by component-level correspondence (ops fp/cf/lm/bel): try_fast_path returns roundNE(m*10^e) whenever it answers (fastPath_exact, normal and disguised, both float types, all builds); a valid answer of compute_float equals roundNE(w*10^q) for every w < 2^64 and every q >= 0 or beyond the cut-offs (lemire_sound_partial, lemire_sound_nonneg, lemire_neg_sound), and an invalid-marked answer brackets it (lemire_fallback_brackets): lemire_sound_proved - the full statement lemire_sound is a theorem, for all q and w, no continued fractions; the many_digits two-pass wrapper is correct for every value in [w, w+1]*10^q relative to compute_float (lemire_wrapper). Bellerophon (the moderate path of compact builds) is proved sound on its model: every valid non-lossy answer is roundNE of the true value, truncated mantissas included (bellerophon_sound: table facts kernel-checked on the accessors, mul = exact product rounded half-up, error accounting against the truncated tables, error_is_accurate decision, rounding). The composition is machine-checked (Props/C01Main.lean): parseFloatAlgoModel = syntax -> try_fast_path -> moderate_path -> slow_path -> to_native, tied to the API by the pipe-* streams; C01_main: lemire_sound -> SlowPathCorrect slow -> NumberExact -> the pipeline model prints litBits of the digit content for every untruncated decimal input (non-compact builds); unconditional corollaries for fast-path inputs, Eisel-Lemire with q >= 0 or on its cut-offs, Bellerophon-decided inputs (compact) and power-of-two radices. The big-integer slow path (slow.rs/bigint.rs) has a Lean model (Model/Slow.lean: value-level big integers with the real BIGINT_LIMBS capacity checks; Model/SlowBytes.lean: byte_comp on limbs) tied to the code by the component op sl (gens_slow.py: half-way literals with 20..800 digits +-1 in the last digit, cuts around max_digits with zero/non-zero tails, subnormal and overflow boundaries; the error float is taken from the real moderate path on the Rust side and from the moderate path of the MODEL on the Lean side, 0 model mismatches, panics predicted), and is proved on that model for ALL digit strings and exponents, f32/f64, builds default/compact/radix/compact+radix (Props/C01Slow.lean): parse_mantissa returns exactly the value and count of the first max_digits significant digits, +1 iff a non-zero digit was cut, and cannot overflow its big integer (parseMantissa_value); for a non-negative exponent the result is roundNE(M*10^e), overflow to infinity included, whenever M*10^e fits BIGINT_LIMBS, which holds for everything Eisel-Lemire can hand over (positive_digit_comp_correct, positive_guard_decimal); for a negative exponent, given that the error float is normalised, above the underflow cut, rounds down to a finite b with b <= M/10^j <= next(b) and the two scaled integers fit, the comparison with b+h is exact and the result is roundNE(M/10^j) (negative_digit_comp_correct); slow_radix composes them (slow_radix_correct) and the rounded number is the value of the whole literal when at most max_digits digits are significant or only zeros are cut (value_untruncated, value_zero_tail). NOT proved: Eisel-Lemire for negative q inside the table and the bracket of its fall-back answers (so the bracket precondition of the slow path stays a hypothesis); that replacing a non-zero cut tail by one digit 1 preserves the rounding (truncation_invariant, a Prop: needs that no half-way point has max_digits digits); the error float below the underflow cut (-exp+1 > 64) or rounding down to infinity; that every estimate Eisel-Lemire hands over lies in SlowDomain (normalised, above the underflow cut, finite round-down, capacity guards) - Props/C01SlowMain.lean states the pipeline with the modelled slow path relative to that. Those parts are compared with the oracle on worst-case inputs (closest-to-midpoint mantissas per power, truncation-crossing and long-tail literals, exponent cut-offs) on four to eight feature sets. Partial proof, stated as such.'
+LEVEL_TEXT = 'Proved in Lean for all inputs: the specification oracle (roundNE is the nearest float, ties to even, monotone, exact on floats, correct overflow threshold) and, for every row, that the Eisel-Lemire / small-power / Bellerophon / big-integer tables and limits regenerated from the compiled crate equal their closed forms. Also proved on Lean models tied to the code by component-level correspondence (ops fp/cf/lm/bel): try_fast_path returns roundNE(m*10^e) whenever it answers (fastPath_exact, normal and disguised, both float types, all builds); a valid answer of compute_float equals roundNE(w*10^q) for every w < 2^64 and every q >= 0 or beyond the cut-offs (lemire_sound_partial, lemire_sound_nonneg, lemire_neg_sound), and an invalid-marked answer brackets it (lemire_fallback_brackets): lemire_sound_proved - the full statement lemire_sound is a theorem, for all q and w, no continued fractions; the many_digits two-pass wrapper is correct for every value in [w, w+1]*10^q relative to compute_float (lemire_wrapper). Bellerophon (the moderate path of compact builds) is proved sound on its model: every valid non-lossy answer is roundNE of the true value, truncated mantissas included (bellerophon_sound: table facts kernel-checked on the accessors, mul = exact product rounded half-up, error accounting against the truncated tables, error_is_accurate decision, rounding). The composition is machine-checked (Props/C01Main.lean): parseFloatAlgoModel = syntax -> try_fast_path -> moderate_path -> slow_path -> to_native, tied to the API by the pipe-* streams; C01_main: lemire_sound -> SlowPathCorrect slow -> NumberExact -> the pipeline model prints litBits of the digit content for every untruncated decimal input (non-compact builds); unconditional corollaries for fast-path inputs, Eisel-Lemire with q >= 0 or on its cut-offs, Bellerophon-decided inputs (compact) and power-of-two radices. The big-integer slow path (slow.rs/bigint.rs) has a Lean model (Model/Slow.lean: value-level big integers with the real BIGINT_LIMBS capacity checks; Model/SlowBytes.lean: byte_comp on limbs) tied to the code by the component op sl (gens_slow.py: half-way literals with 20..800 digits +-1 in the last digit, cuts around max_digits with zero/non-zero tails, subnormal and overflow boundaries; the error float is taken from the real moderate path on the Rust side and from the moderate path of the MODEL on the Lean side, 0 model mismatches, panics predicted), and is proved on that model for ALL digit strings and exponents, f32/f64, builds default/compact/radix/compact+radix (Props/C01Slow.lean): parse_mantissa returns exactly the value and count of the first max_digits significant digits, +1 iff a non-zero digit was cut, and cannot overflow its big integer (parseMantissa_value); for a non-negative exponent the result is roundNE(M*10^e), overflow to infinity included, whenever M*10^e fits BIGINT_LIMBS, which holds for everything Eisel-Lemire can hand over (positive_digit_comp_correct, positive_guard_decimal); for a negative exponent, given that the error float is normalised, above the underflow cut, rounds down to a finite b with b <= M/10^j <= next(b) and the two scaled integers fit, the comparison with b+h is exact and the result is roundNE(M/10^j) (negative_digit_comp_correct); slow_radix composes them (slow_radix_correct) and the rounded number is the value of the whole literal when at most max_digits digits are significant or only zeros are cut (value_untruncated, value_zero_tail). The decimal pipeline is CLOSED at API level for EVERY build (Props/C01Final.lean: C01_decimal_full_proved = C01_decimal_correct_slow for Eisel-Lemire builds + C01_decimal_correct_compact for compact builds; no hypothesis besides radix 10, the separator-free format classes of C12 and input length < 2^60; axioms propext/Classical.choice/Quot.sound): for f32/f64, complete and partial parser and EVERY input - any number of digits - parseFloatAlgoModel slowModel (syntax -> try_fast_path -> lemire with both passes and compute_error, or bellerophon -> slow_radix with parse_mantissa, its digit limit, positive/negative_digit_comp and the big-integer capacity checks -> to_native) prints litBits of the digit content, the same count, the same errors. Ingredients: NumberExact is proved from the syntax model, untruncated and truncated (Props/C01Number.lean: number_exact_of_syntax, number_truncated_of_syntax - the words are the first 19 significant digits and the matching exponent); every SlowDomain condition is derived (Props/C01SlowDomain.lean slowDomain_of_exact from lemire_estimate_facts; Props/C01Trunc.lean slowDomain_of_truncated): lemire never panics and every invalid-marked answer, compute_error included, is the normalised upper product word of a row inside the table, an estimate of w*10^q for every row and any low word (Proof/LemireError.lean; rows -27..-1 by divisibility), hence a 40-unit estimate of the value of all the digits, which still brackets it (Proof/LemireWide.lean) and bounds both big integers of negative_digit_comp (neg_guard_bounds); the estimate may round down to a finite float, to +0 below the underflow cut, or to +infinity (negativeDigitComp_inf, negative_digit_comp_correct_total); truncation_invariant is PROVED (Proof/SlowTruncation.lean: roundNE is constant strictly between P*u and (P+1)*u when P has max_digits digits, because every half-way point (2q+1)*2^k/2^(L+1) written in the even radix has a numerator below radix^max_digits - the two facts that define max_digits are kernel-evaluated for every build and every radix with a digit limit, Proof/SlowTables.lean halfwayB), so slow_radix_correct_full is a theorem (slow_radix_correct_full_proved) for all those radices. compact builds: an invalid-marked answer of bellerophon is the scaled extended float itself, a TWO-SIDED estimate of the true value (Proof/BellEstimate.lean from prepare_cases: mant-4 < value < mant+41 units, truncated mantissas included), which still brackets it (Proof/BellBracket.lean: a value a few units below val(b) is above the midpoint to the previous float) and bounds both big integers (Props/C01Compact.lean: slowDomain_core, slowDomain_bell_exact/_truncated). NOT proved: byte_comp for odd radices (correspondence only); non-decimal radices at pipeline level. Those parts are compared with the oracle on worst-case inputs (closest-to-midpoint mantissas per power, truncation-crossing and long-tail literals, exponent cut-offs) on four to eight feature sets. Partial proof, stated as such.'
 LEVEL_NOTE = "Trusted: Lean kernel; rustc; the dump binary and generator (R); the differential harness and generators (C); IEEE-754 correct rounding of hardware int->float, * and / (fast path). Lean models of number.rs (fast path), lemire.rs, bellerophon.rs exist and agree with the compiled code on >= 200k component ops per feature set; slow.rs and bigint.rs have a value-level Lean model with the real capacity checks (op sl, ~5k ops per set, composition moderate path -> slow path included)."
 
 
